@@ -67,7 +67,7 @@ PROPS["C03"] = dict(
                  "Panacea.C03.create_requires_self_auth_proof", "Panacea.C03.proof_key_is_listed_under_authentication",
                  "Panacea.C03.not_under_authentication_rejected", "Panacea.C03.from_address_irrelevant",
                  "Panacea.C03.rejected_is_noop", "Panacea.C03.other_dids_untouched"],
-    streams=DID_STREAM, trusted=DID_TRUSTED,
+    streams=DID_STREAM + [dict(name="genesis", quick=12, thorough=300, thorough_seeds=2)], trusted=DID_TRUSTED,
     assumptions=DID_ASSUME + ["known finding F18: 'over the new content' means over the document's JSON rendering, which is injective only on valid UTF-8 strings (mon.c03.utf8)"],
 )
 PROPS["C04"] = dict(
@@ -77,7 +77,7 @@ PROPS["C04"] = dict(
                  "Panacea.C04.update_replay_reduction", "Panacea.C04.update_replay_rejected",
                  "Panacea.C04.deactivate_replay_rejected", "Panacea.C04.create_replay_rejected",
                  "Panacea.Did.signBytes_injective"],
-    streams=DID_STREAM + [dict(name="genesis", quick=12, thorough=300, thorough_seeds=2)], trusted=DID_TRUSTED,
+    streams=DID_STREAM + [dict(name="genesis", quick=12, thorough=300, thorough_seeds=2), dict(name="tx", quick=4, thorough=80, thorough_seeds=2)], trusted=DID_TRUSTED,
     assumptions=DID_ASSUME + ["SigBinds (a signature verifies for at most one message) for update_replay_rejected only; the reduction form has no such hypothesis"],
 )
 PROPS["C05"] = dict(
@@ -312,11 +312,19 @@ _RAQ = "Panacea.Refine.AolQuery"
 R_AOLQ = [f"{_RA}.topicQuery_refines", f"{_RA}.writerQuery_refines", f"{_RA}.recordQuery_refines", f"{_RA}.itemQueries_nil"]
 _RPG = "Panacea.Refine.PnftGenesis"
 R_PNFTG = [f"{_RP}.exportGenesis_run", f"{_RP}.initGenesis_run", f"{_RP}.importPNFT_run"]
+_RCS = "Panacea.Refine.CompKeyString"
+_RS = "Panacea.Refine.CompKeyString"
+R_CKS = [f"{_RS}.encodeToString_run", f"{_RS}.decodeFromString_run",
+         f"{_RS}.owner_strings", f"{_RS}.owner_fromStrings_some", f"{_RS}.owner_fromStrings_none",
+         f"{_RS}.topic_strings", f"{_RS}.topic_fromStrings_some", f"{_RS}.topic_fromStrings_none",
+         f"{_RS}.writer_strings", f"{_RS}.writer_fromStrings_some", f"{_RS}.writer_fromStrings_none",
+         f"{_RS}.record_strings", f"{_RS}.record_fromStrings_some", f"{_RS}.record_fromStrings_none",
+         f"{_RS}.roundtrip_owner", f"{_RS}.roundtrip_topic", f"{_RS}.roundtrip_writer", f"{_RS}.roundtrip_record"]
 _RDG = "Panacea.Refine.DidGenesis"
 R_DIDG = [f"{_RK}.initGenesis_run", f"{_RK}.initGenesis_abs", f"{_RK}.initGenesis_empty", f"{_RK}.listDIDs_run",
           f"{_RK}.exportGenesis_run", f"{_RK}.genesis_roundtrip", f"{_RK}.initGenesis_order_independent"]
 REFINE = {
-    "C18": ([_RC], R_COMPKEY),
+    "C18": ([_RC, _RCS], R_COMPKEY + R_CKS),
     "C01": ([_RA, _RAQ], R_COMPKEY + R_AOL + R_AOLQ[2:3]),
     "C13": ([_RA, _RAQ], R_COMPKEY + R_AOL + R_AOLQ),
     "C02": ([_RA, _RT], R_AOL + R_SIGNERS),
@@ -326,9 +334,9 @@ REFINE = {
     "C06": ([_RP, _RPP], R_PNFTV + R_PNFTH + R_PNFTP06),
     "C12": ([_RP, _RPP, _RPQ], R_PNFTH + R_PNFTP12),
     "C11": ([_RD, _RK], R_DIDV[-4:] + R_DIDK[3:5]),
-    "C03": ([_RD, _RK], R_DIDV[3:5] + R_DIDV[6:7] + R_DIDK),
+    "C03": ([_RD, _RK, _RDG], R_DIDV[3:5] + R_DIDV[6:7] + R_DIDK + R_DIDG[-2:-1]),
     "C07": ([_RB], R_BURN),
-    "C08": ([_RP, _RPQ, _RPG, _RDG], R_PNFTG + [f"{_RP}.getAllDenoms_run"] + R_DIDG),
+    "C08": ([_RP, _RPQ, _RPG, _RDG, _RCS], R_PNFTG + [f"{_RP}.getAllDenoms_run"] + R_DIDG + R_CKS[-4:]),
     "C09": ([_RDG], R_DIDG[:3] + R_DIDG[-1:]),
     "C04": ([_RK, _RDG], R_DIDK[2:] + R_DIDG[-2:-1]),
     "C05": ([_RK, _RDG], R_DIDK[3:] + R_DIDG[-2:-1]),
